@@ -6,7 +6,7 @@ import re
 
 NAMES = ["Package", "Source", "Depends", "Description", "X-Foo", "Section", "Arch", "Uploaders"]
 WORDS = ["foo", "bar", "1.0-1", "libc6 (>= 2.3)", "a b  c", "any", "x#y", "ünï", "${misc:Depends}",
-         "http://x.org/", ".", "a,b", "-q", "k=v",
+         "http://x.org/", ".", "a,b", "-q", "k=v", "100% %s {0} \\1",
          # characters str.splitlines() would break at, but which are ordinary here
          "form\x0cfeed", "nel\x85x", "ls\u2028x", "fs\x1cgs\x1dx"]
 
